@@ -11,6 +11,10 @@ package main
 //                 `fvar <k> <stored value>` + `fback <k> R`             Locator().CloneVariables() after completion
 //                 `fobj <k> <stored value>` + `foback <k> R`            Locator().CloneItems(".") after completion
 //                 `done <0|1>`                     instance completed within the deadline
+//   shared case : params `engine shared`: every instance is created from ONE `[]bpmn.Option{WithVariables(m), WithDataObjects(o)}`
+//                 slice; additionally `setvar <k> G` (Locator().SetVariable on a created instance) and
+//                 `gvar <k>` → `got 0` | `got 1 R` (Locator().GetVariable at the end); instance 2 is created after
+//                 instance 0 ran and instance 1 was written to
 //   crash case  : `crash <scenario> <0|1>`         the scenario run in a child process: did the process die of a panic
 
 import (
@@ -220,6 +224,132 @@ func c16runEngine(out *rec.Out, p c16proc, insts []c16instIn, stats map[string]i
 	stats["engine_instances"] += len(insts)
 }
 
+// c16declLines prints the declarations of the process.
+func c16declLines(out *rec.Out, p c16proc) {
+	for _, it := range p.props {
+		out.Line("propdecl %s %s %s %s", "k:"+c16cps(it.name), c16cps(it.typ), "v:"+c16cps(it.value), "r:"+c16cps(it.ref))
+	}
+	for _, it := range p.headers {
+		out.Line("hdrdecl %s %s %s", "k:"+c16cps(it.name), "v:"+c16cps(it.value), "r:"+c16cps(it.ref))
+	}
+	for _, r := range p.results {
+		out.Line("resdecl %s", "k:"+c16cps(r))
+	}
+	for _, r := range p.outs {
+		out.Line("outdecl %s", "k:"+c16cps(r))
+	}
+}
+
+// c16sharedCase: instances created from ONE shared option slice must still own their variables and data
+// objects. Instance 0 runs its task (declared results / data outputs), instance 1 is written to through
+// Locator().SetVariable, instance 2 is created afterwards; then every instance is read.
+func c16sharedCase(out *rec.Out, p c16proc, vars, objs, results0, dobjs0, setvar1 []c16kv, probe []string, stats map[string]int) {
+	out.Begin("c16", "engine", "shared")
+	defer func() {
+		out.End()
+		stats["cases"]++
+		stats["engine_shared_option_cases"]++
+	}()
+	var defs schema.Definitions
+	if err := xml.Unmarshal([]byte(p.xml()), &defs); err != nil {
+		out.Line("xmlerror %s", c16cps(err.Error()))
+		return
+	}
+	c16declLines(out, p)
+	shared := []bpmn.Option{bpmn.WithVariables(c16toMap(vars)), bpmn.WithDataObjects(c16toMap(objs))}
+	engine := bpmn.NewEngine()
+	ctx, cancel := context.WithTimeout(context.Background(), 10*time.Second)
+	defer cancel()
+	var run []*bpmn.Process
+	create := func(i int) bool {
+		out.Line("inst %d", i)
+		for _, kv := range vars {
+			out.Line("var %s %s", "k:"+c16cps(kv.k), strings.Join(kv.v.d, " "))
+		}
+		for _, kv := range objs {
+			out.Line("obj %s %s", "k:"+c16cps(kv.k), strings.Join(kv.v.d, " "))
+		}
+		// the slice is handed over with exact capacity, so that an append inside the engine cannot alias it
+		ins, err := engine.NewProcess(&defs, shared[:len(shared):len(shared)]...)
+		if err != nil {
+			out.Line("newerror %s", c16cps(err.Error()))
+			return false
+		}
+		run = append(run, ins)
+		return true
+	}
+	if !create(0) || !create(1) {
+		return
+	}
+	// instance 0 runs
+	out.Line("inst 0")
+	for _, kv := range results0 {
+		out.Line("result %s %s", "k:"+c16cps(kv.k), strings.Join(kv.v.d, " "))
+	}
+	for _, kv := range dobjs0 {
+		out.Line("dobj %s %s", "k:"+c16cps(kv.k), strings.Join(kv.v.d, " "))
+	}
+	traces := run[0].Tracer().Subscribe()
+	if err := run[0].StartAll(ctx); err != nil {
+		out.Line("starterror %s", c16cps(err.Error()))
+		return
+	}
+	done := false
+loop:
+	for {
+		select {
+		case tr := <-traces:
+			switch t := tracing.Unwrap(tr).(type) {
+			case bpmn.TaskTrace:
+				props := t.GetProperties()
+				for _, k := range c16sortedKeys(props) {
+					c16itemLine(out, "tprop", k, props[k], "")
+				}
+				hs := t.GetHeaders()
+				for _, k := range c16sortedKeys(hs) {
+					out.Line("thdr %s %s", "k:"+c16cps(k), "v:"+c16cps(hs[k]))
+				}
+				t.Do(bpmn.DoWithResults(c16toMap(results0)), bpmn.DoWithObjects(c16toMap(dobjs0)))
+				stats["engine_tasks"]++
+			case bpmn.CeaseFlowTrace:
+				done = true
+				break loop
+			}
+		case <-ctx.Done():
+			break loop
+		}
+	}
+	out.Line("done %d", rec.B(done))
+	run[0].Tracer().Unsubscribe(traces)
+	// instance 1 is written to directly
+	out.Line("inst 1")
+	for _, kv := range setvar1 {
+		out.Line("setvar %s %s", "k:"+c16cps(kv.k), strings.Join(kv.v.d, " "))
+		run[1].Locator().SetVariable(kv.k, kv.v.v)
+	}
+	// instance 2 is created after the others were used
+	if !create(2) {
+		return
+	}
+	for i, ins := range run {
+		out.Line("inst %d", i)
+		vs := ins.Locator().CloneVariables()
+		for _, k := range c16sortedKeys(vs) {
+			c16itemLine(out, "fvar", k, vs[k], "fback")
+		}
+		os := ins.Locator().CloneItems(data.LocatorObject)
+		for _, k := range c16sortedKeys(os) {
+			c16itemLine(out, "fobj", k, os[k], "foback")
+		}
+		for _, k := range probe {
+			k, ins := k, ins
+			out.Line("gvar %s", "k:"+c16cps(k))
+			c16getLine(out, func() (any, bool) { return ins.Locator().GetVariable(k) })
+		}
+	}
+	stats["engine_instances"] += len(run)
+}
+
 func c16engineCase(out *rec.Out, p c16proc, insts []c16instIn, stats map[string]int) {
 	out.Begin("c16", "engine")
 	c16runEngine(out, p, insts, stats)
@@ -377,6 +507,19 @@ func c16engine(out *rec.Out, rng *rec.Rng, tier string, stats map[string]int) {
 	c16engineCase(out, p, insts, stats)
 	c16engineCase(out, p, insts[:1], stats)
 
+	// instances created from one shared option slice (a reused []bpmn.Option; ProcessSet hands the same options
+	// to every process it creates in the same way)
+	sp := c16proc{props: []c16item{{"present", "string", "", "$cfg.name"}}, results: []string{"r1", "shared"}, outs: []string{"out1"}}
+	c16sharedCase(out, sp,
+		[]c16kv{{"cfg", cfgv("alice")}, {"shared", c16str("initial")}, {"n", c16int("int", 5, 0)}},
+		[]c16kv{{"do1", c16map(c16kv{"a", c16str("ac")})}},
+		[]c16kv{{"r1", c16int("int", 1, 0)}, {"shared", c16str("written by instance 0")}},
+		[]c16kv{{"out1", c16map(c16kv{"o", c16str("oo")})}},
+		[]c16kv{{"direct", c16str("written into instance 1")}, {"n", c16int("int", 6, 0)}},
+		[]string{"cfg", "shared", "n", "r1", "direct", "absent"}, stats)
+	c16sharedCase(out, c16proc{results: []string{"r"}}, []c16kv{{"v", c16bool(true)}}, nil,
+		[]c16kv{{"r", c16str("x")}}, nil, []c16kv{{"w", c16bool(false)}}, []string{"v", "r", "w"}, stats)
+
 	n := 12
 	if tier == "thorough" {
 		n = 150
@@ -424,6 +567,34 @@ func c16engine(out *rec.Out, rng *rec.Rng, tier string, stats map[string]int) {
 			is = append(is, in)
 		}
 		c16engineCase(out, q, is, stats)
+	}
+	ns := 6
+	if tier == "thorough" {
+		ns = 60
+	}
+	for i := 0; i < ns; i++ {
+		keys := []string{"a", "b", "é", "shared", "r", "w"}
+		pick := func(n int) []c16kv {
+			var kvs []c16kv
+			seen := map[string]bool{}
+			for j := 0; j < n; j++ {
+				k := keys[rng.Intn(len(keys))]
+				if !seen[k] {
+					seen[k] = true
+					kvs = append(kvs, c16kv{k, c16engineValue(rng)})
+				}
+			}
+			return kvs
+		}
+		var objs, dobjs []c16kv
+		if rng.Bool() {
+			objs = []c16kv{{"d0", c16engineValue(rng)}}
+		}
+		if rng.Bool() {
+			dobjs = []c16kv{{"o", c16engineValue(rng)}}
+		}
+		c16sharedCase(out, c16proc{results: []string{"a", "r", "shared"}, outs: []string{"o"}}, pick(1+rng.Intn(3)), objs,
+			pick(1+rng.Intn(3)), dobjs, pick(1+rng.Intn(2)), keys, stats)
 	}
 	for _, name := range []string{"control_plain", "result_uint", "property_ref_nil_array", "property_ref_nil_object"} {
 		c16crashCase(out, name, stats)
